@@ -13,7 +13,9 @@ Fixpoint alloc_history (local : Z) (sizes : list Z) : list (Z * Z) * Z :=   (* r
   end.
 (* EnsureBasePointerCalleeSaved on the frame size *)
 Definition ensure_bp_frame (clobbers : bool) (local : Z) : Z := if clobbers && (local =? 0) then local + 8 else local.
-Definition frame_bytes (sizes : list Z) (clobbers : bool) : Z := ensure_bp_frame clobbers (snd (alloc_history 0 sizes)).
+(* FrameBytes rounds the local size up to a multiple of the pointer size (the assembler accepts no other frame size) *)
+Definition round8 (x : Z) : Z := (x + 7) / 8 * 8.
+Definition frame_bytes (sizes : list Z) (clobbers : bool) : Z := round8 (ensure_bp_frame clobbers (snd (alloc_history 0 sizes))).
 
 Definition region_in (r : Z * Z) (lo hi : Z) : bool := (lo <=? fst r) && (fst r + snd r <=? hi).
 Definition regions_disjoint_b (r1 r2 : Z * Z) : bool :=
